@@ -117,6 +117,47 @@ def recover (appendFailed hasStore : Bool) (mode : RetryMode) (items : List RIte
       | none => ROut.error
     (outs, if ridx.isEmpty then [] else [ridx.length])
 
+/-! ## 2b. ordered completion drain (`recordAppendCompletion` / `popNextAppendCompletion`) -/
+
+structure Drain where
+  next : Nat                 -- nextAppendDrainSeq
+  ready : Option Nat         -- readyAppendCompletion
+  done : List Nat            -- keys of completedAppends
+  deriving Repr, Inhabited
+
+def Drain.init : Drain := { next := 0, ready := none, done := [] }
+
+def Drain.record (d : Drain) (seq : Nat) : Drain :=
+  if seq < d.next then d
+  else if seq == d.next && d.ready.isNone then { d with ready := some seq }
+  else { d with done := seq :: d.done.erase seq }
+
+def Drain.popMap (d : Drain) : Option (Nat × Drain) :=
+  if d.done.contains d.next then some (d.next, { d with done := d.done.erase d.next, next := d.next + 1 })
+  else none
+
+def Drain.pop (d : Drain) : Option (Nat × Drain) :=
+  match d.ready with
+  | some s => if s == d.next then some (s, { d with ready := none, next := d.next + 1 }) else d.popMap
+  | none => d.popMap
+
+/-- the loop of applyAppendCompletion -/
+def Drain.popAll : Nat → Drain → List Nat × Drain
+  | 0, d => ([], d)
+  | fuel + 1, d =>
+    match d.pop with
+    | some (s, d') => let (r, d'') := Drain.popAll fuel d'; (s :: r, d'')
+    | none => ([], d)
+
+/-- one arrival: record, then drain everything that became in-order -/
+def Drain.arrive (d : Drain) (seq : Nat) : List Nat × Drain :=
+  let d' := d.record seq
+  Drain.popAll (d'.done.length + 2) d'
+
+def Drain.run : Drain → List Nat → List (List Nat)
+  | _, [] => []
+  | d, a :: rest => let (out, d') := d.arrive a; out :: Drain.run d' rest
+
 /-! ## 3. writer activation LTS
 
   Any number of submitter threads (SubmitLocal → enqueue), completion threads
